@@ -208,6 +208,12 @@ fn clvm_tree_to_lazy_node(obj: Bound<'_, PyAny>) -> PyResult<LazyNode> {
 
     let root_ptr = obj.as_ptr() as usize;
     let mut stack: Vec<WorkItem<'_>> = vec![WorkItem::Visit(obj)];
+    // `identity_map` is keyed by object address. An address is only unique among
+    // live objects, so every object we record must stay alive until we are done:
+    // objects whose `.pair` builds fresh children (e.g. `LazyNode`) would
+    // otherwise be freed after their visit and a later child could reuse the
+    // address and hit a stale entry.
+    let mut keep_alive: Vec<Bound<'_, PyAny>> = Vec::new();
 
     while let Some(item) = stack.pop() {
         match item {
@@ -217,6 +223,7 @@ fn clvm_tree_to_lazy_node(obj: Bound<'_, PyAny>) -> PyResult<LazyNode> {
                 if identity_map.contains_key(&id) {
                     continue;
                 }
+                keep_alive.push(pyobj.clone());
 
                 let atom_val: Option<Vec<u8>> = pyobj.getattr("atom")?.extract()?;
 
